@@ -439,6 +439,9 @@ func genFilterParams(t *rapid.T, label string) (n int, k, tweak uint32, flags by
 		tweak = rapid.Uint32().Draw(t, label+"_tw")
 	}
 	flags = byte(rapid.IntRange(0, 2).Draw(t, label+"_flags"))
+	if rapid.IntRange(0, 5).Draw(t, label+"_anyflags") == 0 { // the flags byte is a byte on the wire; membership does not depend on it
+		flags = rapid.Byte().Draw(t, label+"_flagsbyte")
+	}
 	return
 }
 
